@@ -8,7 +8,7 @@ S_NOTE = ("Trusted: CPython 3.12.1 + stdlib (executed, not modelled), CrossHair 
           "z3 5.1.0, the oracle written in the harness. Claim is bounded: values inside the stated ranges, shapes inside the enumerated table; "
           "a partition that does not reach 'confirmed over all paths' is listed as inconclusive in the evidence.")
 T_NOTE = ("Trusted: CPython 3.12.1, z3 5.1.0, the reference semantics R of DESIGN.md 2.3 as encoded in vlib/qsem (validated on every run by replaying "
-          "solver models through CPython's eval). Claim is bounded: collections of length <= N, programs inside the enumerated/sampled skeleton space; "
+          "solver models through CPython's eval; a sample of the queries is decided again by z3 4.8.12 and cvc5 1.0.3). Claim is bounded: collections of length <= N, programs inside the enumerated/sampled skeleton space; "
           "opaque methods are pure total uninterpreted functions.")
 
 # id -> dict(level, text, technique, engine, design_ref, note)
@@ -38,14 +38,14 @@ add("C16", "model_checking",
     "symbolic execution of the real code over symbolic histories (CrossHair -> z3)", "S", "DESIGN.md 3/C16", S_NOTE)
 add("C17", "translation_validation",
     "Bounded symbolic execution (CrossHair/z3) of change_extension_functions_to_calls with two fully symbolic attribute names (any string up to 12 "
-    "characters) at different depths in 6 program shapes x 0..2 extra arguments; oracle: reference bottom-up conversion, idempotence, no method-form "
+    "characters) at different depths in 7 program shapes (incl. operator calls that take their arguments by keyword) x 0..2 extra arguments, each after an earlier call with a caller-supplied list of names; oracle: reference bottom-up conversion, idempotence, no method-form "
     "operator left. Semantic equality of both forms is decided by z3 translation validation on mixed-form programs.",
     "symbolic execution of the real code (CrossHair -> z3) + SMT translation validation (z3)", "S+T", "DESIGN.md 3/C17", S_NOTE)
 
 add("C07", "other",
     "Bounded symbolic execution (CrossHair/z3) of the type follower's call normalisation: number of defaults, positional count, keyword mask, keyword "
-    "order, argument values and declared default values (unbounded ints) are solver variables, for signatures with 1..3 parameters at 7 call-site "
-    "positions (depths 0..2, dictionary field, registered collection class, registered functions); oracle is inspect.Signature.bind.",
+    "order, argument values and declared default values (unbounded ints) are solver variables, for signatures with 1..3 parameters at 12 call-site "
+    "positions (depths 0..2, dictionary field, registered collection class, registered functions and their results, receiver not called self, lambda handed to Where by keyword); oracle is inspect.Signature.bind.",
     "symbolic execution of the real code (CrossHair -> z3), per-partition 'confirmed over all paths'", "S", "DESIGN.md 3/C07", S_NOTE)
 add("C13", "other",
     "Bounded symbolic execution (CrossHair/z3) of every value-embedding entry point. Values embedded as ast.Constant (defaults, captured variables) are "
@@ -53,11 +53,11 @@ add("C13", "other",
     "20-character class alphabet (len<=2 quick, <=3 thorough) and edge tables. Oracle: ast.literal_eval returns an equal value of the same type.",
     "symbolic execution of the real code (CrossHair -> z3), per-partition 'confirmed over all paths'", "S", "DESIGN.md 3/C13", S_NOTE)
 add("C14", "other",
-    "Bounded symbolic execution (CrossHair/z3) of the real simplifier on 7 packaging kinds x 6 consumer chains x 3 binder naming schemes with symbolic "
+    "Bounded symbolic execution (CrossHair/z3) of the real simplifier on 8 packaging kinds x 12 consumer chains x 3 binder naming schemes (2 in the quick tier) with symbolic "
     "tuple arity, projection index and dictionary key strings; oracle: no tuple/list/dict construction and no constant projection is left outside the final result.",
     "symbolic execution of the real code (CrossHair -> z3), per-partition 'confirmed over all paths'", "S", "DESIGN.md 3/C14", S_NOTE)
 add("C18", "translation_validation",
-    "Bounded symbolic execution (CrossHair/z3) of the real simplifier on literal projections with a symbolic selector (8 selector kinds, int in [-5,5], any "
+    "Bounded symbolic execution (CrossHair/z3) of the real simplifier on literal projections with a symbolic selector (11 selector kinds incl. four slice forms, int in [-5,5], any "
     "str len<=2) in 4 positions x 5 container kinds: the result must compile/unparse or be the dedicated index error exactly when allowed. Semantic "
     "intactness of the untouched sub-expression is decided by z3 translation validation.",
     "symbolic execution of the real code (CrossHair -> z3) + SMT translation validation (z3)", "S+T", "DESIGN.md 3/C18", S_NOTE)
